@@ -435,8 +435,8 @@ def shape_specs():
             ('routes-only:imported-tree', 'route gett(sh.Tree, sh.Tree, sh.Tree)\n    attrs\n        style = "download"\n', [Rt('gett')]),
             ('routes-only:alias-of-union', 'alias Ul = sh.Uni\n\nroute geta(Ul, Ul, Void)\n', [Rt('geta')]),
             ('aliases-only', 'alias Pl = sh.Plain\n\nalias Ls = List(sh.Uni)\n', []),
-            ('same-route-name-other-auth', 'route getinfo(sh.Plain, Void, Void)\n    attrs\n        auth = "team"\n\nroute onlyteam:2(Void, sh.Plain, Void)\n    attrs\n        auth = "team"\n\nroute both(Void, Void, Void)\n    attrs\n        auth = "team, user"\n',
-             [Rt('getinfo', 1, (('auth', 'team'),)), Rt('onlyteam', 2, (('auth', 'team'),)), Rt('both', 1, (('auth', 'team, user'),))]),
+            ('same-route-name-other-auth', 'route getinfo(sh.Plain, Void, Void)\n    attrs\n        auth = "team"\n\nroute onlyteam:2(Void, sh.Plain, Void)\n    attrs\n        auth = "team"\n\nroute both(Void, Void, Void)\n    attrs\n        auth = "team, user"\n\nroute appuser:2(sh.Plain, Void, Void)\n    attrs\n        auth = "app, user"\n',
+             [Rt('getinfo', 1, (('auth', 'team'),)), Rt('onlyteam', 2, (('auth', 'team'),)), Rt('both', 1, (('auth', 'team, user'),)), Rt('appuser', 2, (('auth', 'app, user'),))]),
             ('empty-ns', '', [])):
         sh_text, sh_routes = common, []
         if lab == 'same-route-name-other-auth':
